@@ -31,7 +31,7 @@ import signal
 
 from lib import repo, tla
 
-MARKER = 1          # the pixel value a caller may name as blankval
+MARKER = 0          # the pixel value a caller may name as blankval (0: `if blankval:` would ignore it)
 
 # ------------------------------------------------------------------------------------------------
 # INPUT tables: grids, files, HDUs.  (Python may enumerate inputs; what the calls do with them comes from TLC.)
@@ -497,12 +497,15 @@ def observe_dir(d):
         if len(sets) == 1:
             e = sets[0]
 
-            def num(k):
+            def num(k, default=None):
+                if e.get(k) is None:
+                    return default
                 try:
                     return float(e.get(k))
                 except (TypeError, ValueError):
                     return None
-            out["wtml"] = {"proj": e.get("Projection"), "levels": e.get("TileLevels"), "rng": [num("DataMin"), num("DataMax")],
+            # (an attribute that has WWT's default value - DataMin = 0 - is not written out)
+            out["wtml"] = {"proj": e.get("Projection"), "levels": e.get("TileLevels"), "rng": [num("DataMin", 0.0), num("DataMax", 0.0)],
                            "crval": [num("CenterX"), num("CenterY")], "name": e.get("Name"), "url": e.get("Url"), "ftype": e.get("FileType")}
         else:
             out["wtml"] = {"n": len(sets)}
@@ -710,6 +713,10 @@ def replay_rows(job):
                     continue
                 if row["early"] and c["method"] == "AUTO" and obs["method"] is not None:
                     findings.append(("D", "early", "the constructor accepted a selection the model says it cannot scan %s" % where))
+                if row["method"] == "TAN" and any(GRIDS[sol["grid"]][0] != TAN for f in c["files"] for h in FILES[f][1] for sol in h["wcs"]):
+                    # a non-TAN projection goes through reproject's find_optimal_celestial_wcs, which the model does not
+                    # cover (it fails inside shapely here): only the choice of the method is compared
+                    continue
                 if expect_ok and obs["raised"]:
                     findings.append(("V", "G04:rows:raised", "the call raised %s; specified: it returns %s" % (obs["raised"], where)))
                     continue
@@ -811,7 +818,7 @@ def run(ctx):
             name = "MCG04All" + tag
             return ctx.tlc(name, extra=mc_modules(name, tables, table),
                            cfg_text=cfg("AllSpec", bound, STATE_INVARIANTS + ["StepTheoremsBounded"], view=True, stepbound=stepbound),
-                           workers=4 if quick else 10, timeout=14400)
+                           workers=4 if quick else 6, timeout=14400)
 
         def tlc_refute(inv, clears=True, tag=""):
             # breadth first, one worker: the counterexample is a shortest history
